@@ -80,6 +80,78 @@ def keyfn(line, code):
     return line
 
 
+MCODES = {1: "malformed record / result is not a consistent sparse matrix", 300: "call failed",
+          301: "result differs from the dense model of the operation", 302: "wrong kind of result",
+          303: "an invalid request (index out of range, non-square determinant, value outside char, not a sub-submatrix) was not refused",
+          304: "determinant differs from the definition"}
+
+
+def mkeyfn(line, code):
+    t = line.split()
+    if code == 304 and t[0] == "6":
+        return "determinant-is-returned-without-its-sign"
+    return line
+
+
+def idx(l):
+    return "%d %s" % (len(l), " ".join(map(str, l)))
+
+
+def matutil_lines(ctx, mats):
+    """ops of harness api `matutil` (see drive.c) on all small matrices and random larger ones, char and int"""
+    rng = ctx.rng.fork("matutil")
+    q = ctx.quick
+    out = []
+    pool = list(mats)
+    for _ in range(300 if q else 4000):
+        m, n = rng.below(7), rng.below(7)
+        pool.append((rand_matrix(rng, m, n, (-3, -2, -1, 0, 0, 1, 1, 2, 5, 127, -128), 3 + rng.below(6), 10), m, n))
+    for k, (M, m, n) in enumerate(pool):
+        ml = mat_line(M, m, n)
+        for ty in (0, 1):
+            Mt = M
+            if ty == 1 and k % 3 == 0:
+                Mt = [[x * rng.choice([1, 1, 300, -70000]) for x in r] for r in M]
+            mlt = mat_line(Mt, m, n)
+            for op in (1, 4, 5, 7):
+                out.append("%d %d %s" % (op, ty, mlt))
+            # (op 6, the determinant, is driven by the harness but not part of this stream: CMRchrmatDeterminant /
+            #  CMRintmatDeterminant return the determinant without its sign, and no property speaks about them)
+            # permutations (NULL = identity) and slices, now and then with an out-of-range index
+            rp = rng.shuffle(list(range(m)))
+            cp = rng.shuffle(list(range(n)))
+            out.append("2 %d %s %s %s" % (ty, mlt, idx(rp) if rng.below(4) else "-1", idx(cp) if rng.below(4) else "-1"))
+            rs = rng.shuffle(list(range(m)))[:rng.below(m + 1)]
+            cs = rng.shuffle(list(range(n)))[:rng.below(n + 1)]
+            if rng.below(2):
+                rs, cs = sorted(rs), sorted(cs)
+            out.append("3 %d %s %s %s" % (ty, mlt, idx(rs), idx(cs)))
+            out.append("11 %d %s %s %s" % (ty, mlt, idx(sorted(rs)), idx(sorted(cs))))
+            # equality / transpose tests against an equal, a transposed and a perturbed second matrix
+            T = [[Mt[i][j] for i in range(m)] for j in range(n)]
+            P = [r[:] for r in Mt]
+            if m and n:
+                P[rng.below(m)][rng.below(n)] += 1
+            for M2, m2, n2 in ((Mt, m, n), (T, n, m), (P, m, n)):
+                out.append("8 %d %s %s" % (ty, mlt, mat_line(M2, m2, n2)))
+                out.append("9 %d %s %s" % (ty, mlt, mat_line(M2, m2, n2)))
+            if ty == 0:
+                M2, m2, n2 = pool[rng.below(len(pool))]
+                out.append("10 0 %s %s" % (ml, mat_line(M2, m2, n2)))
+            # sub-submatrices: slice (express input in base numbering) and unslice, valid and invalid
+            brs = sorted(rng.shuffle(list(range(m + 2)))[:rng.below(m + 2)])
+            bcs = sorted(rng.shuffle(list(range(n + 2)))[:rng.below(n + 2)])
+            irs = [x for x in brs if rng.below(2)]
+            ics = [x for x in bcs if rng.below(2)]
+            if rng.below(6) == 0 and m:
+                irs = irs + [m + 5]
+            out.append("12 %d %s %s %s %s %s" % (ty, mlt, idx(brs), idx(bcs), idx(irs), idx(ics)))
+            krs = sorted(rng.shuffle(list(range(len(brs))))[:rng.below(len(brs) + 1)])
+            kcs = sorted(rng.shuffle(list(range(len(bcs))))[:rng.below(len(bcs) + 1)])
+            out.append("13 %d %s %s %s %s %s" % (ty, mlt, idx(brs), idx(bcs), idx(krs), idx(kcs)))
+    return out
+
+
 def run(ctx):
     q = ctx.quick
     rng = ctx.rng.fork("text")
@@ -118,5 +190,7 @@ def run(ctx):
             for ty in (0, 1):
                 b = tob(text)
                 rl.append("%d %d %d %s" % (fmt, ty, len(b), " ".join(map(str, b))))
+    ctx.stream("matutil", matutil_lines(ctx, mats), "matrix and submatrix utilities vs. their dense models",
+               describe=lambda c: MCODES.get(c, str(c)), keyfn=mkeyfn)
     ctx.stream("textwrite", wl, "writers: print, parse by the documented grammar, read back", describe=lambda c: CODES.get(c, str(c)))
     ctx.stream("textread", rl, "readers: valid and malformed byte strings", describe=lambda c: CODES.get(c, str(c)), keyfn=keyfn)
